@@ -193,16 +193,20 @@ func c19Emit(fs *Facts) {
 		fs.Tri("emittedUnderGuard", Unknown, c19Swamp)
 		fs.Tri("fanoutSynchronous", Unknown, c19Swamp)
 		fs.Tri("oldIsLive", Unknown, c19Swamp)
+		fs.Tri("eventTimeFromClock", Unknown, c19Swamp)
+		c19SubscribersAfterStore(fs)
 		return
 	}
 	save := f.Func("swamp", "SaveFunction")
-	del := f.Func("swamp", "deleteHandler")
+	del := f.Func("swamp", ccDeleteHandlerName(f))
 	sendE := f.Func("swamp", "sendEventToHydra")
 	sendD := f.Func("swamp", "sendDeletedEventToClient")
 	if save == nil || del == nil || sendE == nil || sendD == nil {
 		fs.Tri("emittedUnderGuard", Unknown, c19Swamp)
 		fs.Tri("fanoutSynchronous", Unknown, c19Swamp)
 		fs.Tri("oldIsLive", Unknown, c19Swamp)
+		fs.Tri("eventTimeFromClock", Unknown, c19Swamp)
+		c19SubscribersAfterStore(fs)
 		return
 	}
 	// ---- emittedUnderGuard: per top-level branch of SaveFunction
@@ -308,6 +312,31 @@ func c19Emit(fs *Facts) {
 		})
 	}
 	fs.Tri("oldIsLive", old, ow)
+
+	// ---- eventTimeFromClock: every Event{…} literal takes EventTime from time.Now()
+	et, etWhere, seen := Yes, c19Swamp, 0
+	ast.Inspect(f.AST, func(x ast.Node) bool {
+		cl, ok := x.(*ast.CompositeLit)
+		if !ok || f.Str(cl.Type) != "Event" {
+			return true
+		}
+		for _, el := range cl.Elts {
+			kv, ok := el.(*ast.KeyValueExpr)
+			if !ok || f.Str(kv.Key) != "EventTime" {
+				continue
+			}
+			seen++
+			if !strings.Contains(f.Str(kv.Value), "time.Now()") {
+				et, etWhere = No, c19Swamp+":"+itoa(f.Line(kv))
+			}
+		}
+		return true
+	})
+	if seen == 0 {
+		et = Unknown
+	}
+	fs.Tri("eventTimeFromClock", et, etWhere)
+	c19SubscribersAfterStore(fs)
 }
 
 func c19Flags(fs *Facts) {
@@ -403,4 +432,51 @@ func c19Flags(fs *Facts) {
 	default:
 		fs.Tri("resetsChangedFlags", Unknown, c19Treasure+":"+bestFn)
 	}
+}
+
+// checksSubscribersAfterStore: hydra.SummonSwamp consults hasEventSubscriber only after h.swamps.Store (and nothing
+// on the creation path switches event sending on before that)
+func c19SubscribersAfterStore(fs *Facts) {
+	const name, path = "checksSubscribersAfterStore", "app/core/hydra/hydra.go"
+	if _, done := fs.Lean[name]; done {
+		return
+	}
+	h, err := Load(path)
+	if err != nil {
+		fs.Err("%v", err)
+		fs.Tri(name, Unknown, path)
+		return
+	}
+	sm := h.Func("hydra", "SummonSwamp")
+	if sm == nil {
+		fs.Tri(name, Unknown, path)
+		return
+	}
+	stores := h.Calls(sm, "h.swamps.Store")
+	looks := h.Calls(sm, "h.hasEventSubscriber")
+	if len(stores) != 1 {
+		fs.Tri(name, Unknown, path+":"+itoa(h.Line(sm)))
+		return
+	}
+	if cr := h.Func("hydra", "createNewSwamp"); cr != nil && len(h.CallsSuffix(cr, ".StartSendingEvents")) > 0 {
+		fs.Tri(name, No, path+":"+itoa(h.Line(cr)))
+		return
+	}
+	if len(looks) == 0 {
+		fs.Tri(name, Unknown, path+":"+itoa(h.Line(stores[0])))
+		return
+	}
+	for _, l := range looks {
+		if l.Pos() < stores[0].Pos() {
+			fs.Tri(name, No, path+":"+itoa(h.Line(l)))
+			return
+		}
+	}
+	for _, st := range h.CallsSuffix(sm, ".StartSendingEvents") {
+		if st.Pos() < stores[0].Pos() {
+			fs.Tri(name, No, path+":"+itoa(h.Line(st)))
+			return
+		}
+	}
+	fs.Tri(name, Yes, path+":"+itoa(h.Line(looks[0])))
 }
